@@ -6,6 +6,7 @@ package main
 import (
 	"fmt"
 	"math/rand"
+	"strings"
 	"time"
 
 	"github.com/google/uuid"
@@ -28,6 +29,14 @@ func NewGen(seed int64, profile string) *Gen {
 	// half of the histories start with a scenario template (chosen by the history's own seed:
 	// a separate stream, so that the random part of old seeds is unchanged)
 	sr := rand.New(rand.NewSource(seed ^ 0x5ce9a210))
+	if strings.HasPrefix(profile, "bulk") {
+		n := 520
+		fmt.Sscanf(profile, "bulk%d", &n)
+		g.Scenario = "bulk"
+		g.script = bulkScript(n)
+		g.stepNo = 3
+		return g
+	}
 	if names := scenariosFor(profile); len(names) > 0 && sr.Float64() < 0.5 {
 		g.Scenario = names[sr.Intn(len(names))]
 		g.script = genScenarios[g.Scenario](g)
